@@ -37,7 +37,77 @@ def load_templates():
         t.append(dict(name=n[:-4], kind='geo', text=txt, cost=cost))
     t.append(dict(name='hip_a', kind='hip', text=WL.HIP_BASE, cost='fast'))
     t.append(dict(name='hip_b', kind='hip', text=WL.HIP_BASE_2, cost='fast'))
+    for x in t:
+        x['numeric'] = numeric_lines(x['text'])
     return t
+
+
+def numeric_lines(text):
+    """[(parameter name, value)] for the lines of an input file whose value is a plain number"""
+    out = []
+    seen = set()
+    for ln in text.split('\n'):
+        s = ln.strip()
+        if not s or s.startswith('#') or s.startswith('-'):
+            continue
+        parts = s.split(',')
+        if len(parts) < 2:
+            continue
+        name, val = parts[0].strip(), parts[1].split('--')[0].strip()
+        try:
+            v = float(val)
+        except ValueError:
+            continue
+        if name in seen or name.startswith('Print Output'):
+            continue
+        seen.add(name)
+        out.append((name, v))
+    return out
+
+
+def declared_ranges():
+    """parameter name -> (min, max) as declared by the simulators (float Min/Max, first/last of an int AllowableRange)"""
+    import sys
+    out = {}
+    argv = sys.argv
+    try:
+        sys.argv = ['']
+        import geophires_x.Model as M
+        try:
+            m = M.Model(enable_geophires_logging_config=False, input_file=os.devnull)
+            objs = [m.reserv, m.wellbores, m.surfaceplant, m.economics]
+        except Exception:  # noqa: BLE001
+            objs = []
+        for o in objs:
+            for name, p in getattr(o, 'ParameterDict', {}).items():
+                lo, hi = getattr(p, 'Min', None), getattr(p, 'Max', None)
+                ar = getattr(p, 'AllowableRange', None)
+                if isinstance(lo, (int, float)) and isinstance(hi, (int, float)):
+                    out[name] = (float(lo), float(hi))
+                elif ar and all(isinstance(a, int) for a in (ar[0], ar[-1])):
+                    out[name] = (float(min(ar)), float(max(ar)))
+    finally:
+        sys.argv = argv
+    return out
+
+
+FACTORS = ['0.9', '1.1', '0.5', '2', 'min', 'max']
+
+
+def neighbour_tweak(cs, template, ranges):
+    """one parameter of the template moved: scaled, or put on the edge of its declared range"""
+    nums = template.get('numeric') or []
+    if not nums:
+        return None
+    name, v = nums[cs.choose(len(nums), 'nparam')]
+    f = FACTORS[cs.choose(len(FACTORS), 'nfactor')]
+    if f in ('min', 'max'):
+        r = ranges.get(name)
+        if r is None:
+            f = '1.1'
+        else:
+            return (name, f'{r[0] if f == "min" else r[1]:.6g}')
+    return (name, f'{v * float(f):.6g}')
 
 
 GEO_TWEAKS = [
@@ -49,6 +119,11 @@ GEO_TWEAKS = [
     ('Inflation Rate', ['0.02', '0.03']),
     ('Injection Temperature', ['65', '75']),
     ('Production Flow Rate per Well', ['45', '55']),
+    # optional behaviours switched on by extra lines
+    ('Units:Bottom-hole temperature', ['degF', 'degK']),
+    ('Units:Net Electricity Production', ['kW']),
+    ('Units:Produced Temperature', ['degF']),
+    ('Units:Pumping Power', ['kW']),
 ]
 
 HIP_TWEAKS = [
@@ -68,6 +143,8 @@ GEO_POISON = [
     'Reservoir Depth, -3',                  # negative depth
     'End-Use Option, 77',                   # non-member option
     'Gradient 1, 2\nReservoir Depth, 0.5',  # passes validation, fails inside Calculate (negative electricity production)
+    'Reservoir Model, 5\nReservoir Output File Name, /nonexistent/profile.txt',   # aborts with a bare sys.exit()
+    'Reservoir Model, 6',                   # TOUGH2 executable missing: aborts with a bare sys.exit()
 ]
 
 HIP_POISON = [
